@@ -118,6 +118,25 @@ pub fn check_graph(gs: &GraphSpec, count: &mut SeqCount) -> Result<Option<SeqVio
             return Some(v);
         }
         let reference = ids.clone();
+        // two iterators alive at the same time (nested / zipped loops) are independent
+        if n >= 2 {
+            let mut outer = g.iter();
+            let mut out_ids = Vec::new();
+            if let Some(f) = outer.next() {
+                out_ids.push(f.id);
+            }
+            let inner: Vec<usize> = g.iter().map(|f| f.id).collect();
+            let inner_rev: Vec<usize> = g.iter_rev().map(|f| f.id).collect();
+            out_ids.extend(outer.map(|f| f.id));
+            count.traversals += 3;
+            for (op, ids, rev) in [("iter (outer of two live iterators)", &out_ids, false), ("iter (inner)", &inner, false), ("iter_rev (inner)", &inner_rev, true)] {
+                if let Some(mut v) = check_order("iter", ids, &built, rev) {
+                    v.op = op.into();
+                    v.msg = format!("{op}: {}", v.msg);
+                    return Some(v);
+                }
+            }
+        }
         // a lazy map() iterator that is dropped half-way must not disturb later calls
         for k in [1usize, n / 2] {
             if k == 0 || k >= n {
